@@ -51,7 +51,15 @@ pub enum MStep {
     Drop { op: u16, cancel: CancelChoice },
     /// The kernel ends operation `op` with -EINTR / -ECANCELED although nobody
     /// asked for that (final completion, no F_MORE): a10 must re-issue it.
-    Fault { op: u16, eintr: bool },
+    Fault {
+        op: u16,
+        eintr: bool,
+        /// Zero-copy sends: the interrupted result carries IORING_CQE_F_MORE
+        /// and the notification follows (what Linux 6.18 posts for a cancelled
+        /// SEND_ZC), instead of the single-completion form.
+        #[serde(default)]
+        notif: bool,
+    },
     /// Drop the Ring while operations are in flight (queue handles and the
     /// descriptor stay alive); afterwards only futures are dropped and the
     /// kernel posts what it still owes (zero-copy notifications).
@@ -78,7 +86,7 @@ pub fn strategy() -> impl Strategy<Value = MultiCase> {
         8 => (any::<u16>(), prop::bool::weighted(0.9), prop::bool::weighted(0.12), any::<u16>()).prop_map(|(op, ok, last, frac)| MStep::Post { op, ok, last, frac }),
         4 => Just(MStep::RingPoll),
         1 => (any::<u16>(), cancel).prop_map(|(op, cancel)| MStep::Drop { op, cancel }),
-        1 => (any::<u16>(), any::<bool>()).prop_map(|(op, eintr)| MStep::Fault { op, eintr }),
+        1 => (any::<u16>(), any::<bool>(), any::<bool>()).prop_map(|(op, eintr, notif)| MStep::Fault { op, eintr, notif }),
     ];
     let steps = (proptest::collection::vec(step, 0..70), proptest::option::weighted(0.2, any::<u16>())).prop_map(|(mut steps, ring_drop): (Vec<MStep>, Option<u16>)| {
         if let Some(at) = ring_drop {
@@ -512,7 +520,7 @@ impl<'c> Exec<'c> {
         let restart_due = if self.is_multishot(i) || !zc {
             self.ops[i].delivered.front().is_some_and(|x| is_fault(x.res, x.flags))
         } else {
-            self.ops[i].final_consumed && self.ops[i].zc_first.is_some_and(|r| r == -libc::EINTR || r == -libc::ECANCELED) && !self.ops[i].zc_saw_notif
+            self.ops[i].final_consumed && self.ops[i].zc_first.is_some_and(|r| r == -libc::EINTR || r == -libc::ECANCELED)
         };
         if restart_due {
             self.classes.push("restart");
@@ -553,6 +561,7 @@ impl<'c> Exec<'c> {
             op.final_consumed = false;
             op.zc_first = None;
             op.zc_first_consumed = false;
+            op.zc_saw_notif = false;
             op.restarts += 1;
             return;
         }
@@ -860,7 +869,7 @@ impl<'c> Exec<'c> {
         }
     }
 
-    fn fault(&mut self, raw: u16, eintr: bool) {
+    fn fault(&mut self, raw: u16, eintr: bool, notif: bool) {
         self.sync();
         // Only operations whose future is alive (a dropped one is being
         // cancelled anyway) and which have not posted anything final yet; a
@@ -875,9 +884,20 @@ impl<'c> Exec<'c> {
         let e = if eintr { libc::EINTR } else { libc::ECANCELED };
         let mut s = sim::sim();
         if s.the_ring().req(serial).is_some_and(|r| !r.done) {
-            s.the_ring().complete(serial, -e, 0, false);
+            let zc = !matches!(self.ops[i].kind, MKind::Accept | MKind::Write { .. });
+            if zc && notif {
+                // Result with F_MORE; the notification is posted by a later
+                // Post step.
+                s.the_ring().complete(serial, -e, 0, true);
+                if let Some(r) = s.the_ring().req_mut(serial) {
+                    r.zc_notif_pending = true;
+                }
+                self.classes.push("kernel-interruption-with-notification");
+            } else {
+                s.the_ring().complete(serial, -e, 0, false);
+            }
             drop(s);
-            if !matches!(self.ops[i].kind, MKind::Accept | MKind::Write { .. }) {
+            if zc {
                 self.ops[i].zc_first = Some(-e);
             }
             self.classes.push("kernel-interruption");
@@ -1019,7 +1039,7 @@ pub fn run(case: &MultiCase, ctx: &mut Ctx, prop: &'static str) -> Vec<&'static 
             MStep::RingPoll => exec.ring_poll(),
             MStep::Drop { op, cancel } => exec.drop_op(*op, *cancel),
             MStep::DropRing => exec.drop_ring(),
-            MStep::Fault { op, eintr } => exec.fault(*op, *eintr),
+            MStep::Fault { op, eintr, notif } => exec.fault(*op, *eintr, *notif),
         }
     }
 
